@@ -583,11 +583,12 @@ example : isIndexDependent ⟨false, [1, 2], [1/2], some [1, 3], none, true, fal
     (calculateMatrix (α := Term) (some ⟨false, [1, 2], [1/2], some [1, 3], none, true, false, none, none, [], [], false⟩)
       [400, 500] [0] [1] [[1]] 1).toOption.isSome = true := by decide +kernel
 
-/-- `Irf.calculate`: the sum of the (not area-normalised) Gaussians `s·exp(-(t-c)²/(2w²))` of the index -/
+/-- `Irf.calculate`: the sum of the (not area-normalised) Gaussians `s·exp(-(t-c)²/(2w²))` over the tuples
+    `(centre - shift, width, scale)` of the index — the list `gaussians …` the kernel of that index receives -/
 theorem irfCalculate_spec (irf : Irf) (i : Nat) (axis times : List Rat) (v : List ℝ)
     (h : irfCalculate irf i axis times = .ok v) :
     ∃ p, parameter irf (some i) axis = .ok p ∧
-      v = times.map (fun (t : Rat) => ((p.centers.zip (p.widths.zip p.scales)).map
+      v = times.map (fun (t : Rat) => ((gaussians p.centers p.widths p.scales p.shift).map
         (fun g => (g.2.2 : ℝ) * exp (-(((t : ℝ) - g.1) ^ 2) / (2 * (g.2.1 : ℝ) ^ 2)))).sum) := by
   unfold irfCalculate at h
   cases hp : parameter irf (some i) axis with
@@ -874,5 +875,313 @@ example : spectralParameter ⟨true, [1, 2], [1/2], some [1, 3], some [1/4, -1/2
     = .ok ⟨[37/16, 53/16], [11/16, 11/16], [1, 3], 3/2, false, 0⟩ := by
   rw [parameter_generated_eq_model _ 2 _ ⟨[1, 2], [1/2, 1/2], [1, 3], 3/2, false, 0⟩ 500 (by decide +kernel) (by decide) rfl (by simp)]
   decide +kernel
+
+/-! ### irf.py / util.py, method level: `parameter`, `calculate`, `calculate_dispersion`, `calculate_matrix`, `retrieve_irf`
+regenerated from the source (GlotaranModel/Generated/C05Irf.lean) are the model's functions -/
+
+/-- **`IrfMultiGaussian.parameter` as written in irf.py** — the list normalisation, `len(centers) != len(widths)` with its
+    `min(...) != 1` refusal, the broadcast of the single centre (or width) with `[x[0] for _ in range(n)]`, the default scales
+    `[1.0 for _ in centers]`, the scale-count check (fix D24), `shift = 0` / the lookup `self.shift[global_index]` behind
+    `global_index >= len(self.shift)` (TypeError for `None`, the ModelError whose message indexes the global axis: IndexError
+    beyond it), `self.backsweep_period.value if self.backsweep else 0` (AttributeError without a period) and the returned
+    tuple — **is the model's `baseParameter`**, for every item, every global index (or none) and every axis. -/
+theorem generated_base_parameter_eq_model (irf : Irf) (gi : Option Nat) (axis : List Rat) :
+    Gen.base_parameter irf gi axis = baseParameter irf gi axis.length := by
+  unfold Gen.base_parameter baseParameter broadcast scalesOf shiftAt
+  rcases hc : irf.center with _ | ⟨c0, _ | ⟨c1, cs⟩⟩ <;> rcases hw : irf.width with _ | ⟨w0, _ | ⟨w1, ws⟩⟩ <;>
+    simp [bindE, listGet, needIndex, optValue]
+  all_goals
+    cases irf.scale <;> cases irf.shift <;> cases gi <;> cases irf.backsweep <;> cases irf.backsweepPeriod <;>
+      simp
+  all_goals
+    try (split_ifs <;> simp_all)
+  all_goals
+    try (split_ifs <;> simp_all)
+
+example : Gen.base_parameter ⟨false, [1, 2], [1/2], some [1, 3], some [1/4, -1/2], true, false, none, none, [], [], false⟩ (some 1) [400, 500]
+    = .ok ⟨[1, 2], [1/2, 1/2], [1, 3], -1/2, false, 0⟩ := by
+  rw [generated_base_parameter_eq_model]; decide +kernel
+
+/-- **`IrfMultiGaussian.calculate` as written in irf.py** (`self.parameter(index, global_axis)`, then Python's `sum` over
+    `zip(centers - shift, widths, scales)` of `scale * np.exp(-1 * (model_axis - center) ** 2 / (2 * width**2))`) **is the
+    model's `irfCalculate`**, over the reals, for time axes and Gaussian lists of any length. -/
+theorem generated_irf_calculate_eq_model (irf : Irf) (i : Nat) (axis times : List Rat) :
+    Gen.irf_calculate (α := ℝ) irf i axis times = irfCalculate irf i axis times := by
+  unfold Gen.irf_calculate irfCalculate bindE
+  cases parameter irf (some i) axis with
+  | error e => rfl
+  | ok p =>
+    simp only
+    congr 1
+    apply List.map_congr_left
+    intro t _
+    congr 1
+    funext acc g
+    simp only [num_add, num_mul, num_ofRat, num_exp, num_div, num_neg, num_sub]
+    push_cast
+    ring_nf
+
+example : Gen.irf_calculate (α := ℝ) ⟨false, [1, 2], [1/2], some [1, 3], some [1/4, -1/2], true, false, none, none, [], [], false⟩ 0 [400, 500] [0, 1]
+    = irfCalculate ⟨false, [1, 2], [1/2], some [1, 3], some [1/4, -1/2], true, false, none, none, [], [], false⟩ 0 [400, 500] [0, 1] := generated_irf_calculate_eq_model _ _ _ _
+
+/-- **`IrfSpectralMultiGaussian.calculate_dispersion` as written** (loop over the axis, `self.parameter(index, axis)`, the
+    centres appended, `np.asarray(dispersion).T`) **is the model's `calculateDispersion`**. -/
+theorem generated_calculate_dispersion_eq_model (irf : Irf) (axis : List Rat) :
+    Gen.calculate_dispersion irf axis = calculateDispersion irf axis := by
+  unfold Gen.calculate_dispersion calculateDispersion
+  rw [forRangeM_bindE]
+  cases (List.range axis.length).mapM (fun i => spectralParameter irf (some i) axis) with
+  | error e => rfl
+  | ok ps =>
+    simp only [bindE, transposeRows]
+    have : ∀ (l : List Params) (a : List (List Rat)), l.foldl (fun st p => st ++ [p.centers]) a = a ++ l.map (·.centers) := by
+      intro l
+      induction l with
+      | nil => simp
+      | cons x r ih => intro a; simp [ih]
+    rw [this]
+    simp
+
+example : Gen.calculate_dispersion ⟨true, [1, 2], [1/2], none, none, true, false, none, some 500, [1/2, 1/4], [], false⟩ [400, 500, 650]
+    = .ok [[3/4, 1, 37/16], [7/4, 2, 53/16]] := by
+  rw [generated_calculate_dispersion_eq_model]; decide +kernel
+
+/-- **`util.index_dependent` as written** (`isinstance(dataset_model.irf, IrfMultiGaussian) and
+    dataset_model.irf.is_index_dependent()`): false without a Gaussian IRF, otherwise the item's `is_index_dependent`
+    (regenerated itself: `is_index_dependent_generated_eq_model`). -/
+theorem generated_index_dependent_eq_model (irf : Option Irf) :
+    Gen.index_dependent irf = (match irf with
+      | some i => if i.spectral then Gen.is_index_dependent_spectral i else Gen.is_index_dependent_base i
+      | none => false) := by
+  cases irf with
+  | none => rfl
+  | some i => simp only [Gen.index_dependent, is_index_dependent_generated_eq_model]
+
+example : Gen.index_dependent none = false ∧
+    Gen.index_dependent (some ⟨false, [1, 2], [1/2], some [1, 3], some [1/4, -1/2], true, false, none, none, [], [], false⟩) = true := by decide +kernel
+
+/-- **`util.calculate_matrix` as written** — `np.zeros` of the shape chosen by `index_dependent`, the index-dependent or the
+    index-independent glue function (both regenerated: `generated_glue_*_eq_model`), `if not np.all(np.isfinite(matrix)): raise
+    ValueError`, then `matrix @ a_matrix` — **is the model's `calculateMatrixFin`**, over the reals and for EVERY finiteness
+    predicate `fin` (so dropping or moving the check, or multiplying before it, is a false statement, not only another text). -/
+theorem generated_calculate_matrix_eq_model (fin : ℝ → Bool) (irf : Option Irf) (axis times rates : List Rat)
+    (a : List (List Rat)) (n : Nat) :
+    Gen.calculate_matrix fin irf rates axis times a n = calculateMatrixFin fin irf axis times rates a n := by
+  unfold Gen.calculate_matrix calculateMatrixFin decayMatrix Gen.index_dependent
+  cases irf with
+  | none =>
+    simp only [Bool.false_eq_true, if_false, zerosOfShape, callIndep, generated_glue_indep_eq_model, bindE, matmul_eq_applyA]
+    cases Matrix.all fin (Matrix.indep (noIrfMatrix times rates)) <;> simp
+  | some i =>
+    cases hd : isIndexDependent i with
+    | true =>
+      simp only [hd, if_true, zerosOfShape, callDep, generated_glue_dep_eq_model, bindE, matmul_eq_applyA]
+      cases matrixDep (α := ℝ) i axis times rates with
+      | error e => rfl
+      | ok ms => simp only; cases Matrix.all fin (Matrix.dep ms) <;> simp
+    | false =>
+      simp only [hd, Bool.false_eq_true, if_false, zerosOfShape, callIndep, generated_glue_indep_eq_model, bindE, matmul_eq_applyA]
+      cases matrixIndep (α := ℝ) i axis times rates with
+      | error e => rfl
+      | ok m => simp only; cases Matrix.all fin (Matrix.indep m) <;> simp
+
+example : Gen.calculate_matrix (fun _ : ℝ => true) (some ⟨false, [1, 2], [1/2], some [1, 3], some [1/4, -1/2], true, false, none, none, [], [], false⟩) [1] [400, 500] [0, 1] [[1]] 1
+    = calculateMatrixFin (fun _ : ℝ => true) (some ⟨false, [1, 2], [1/2], some [1, 3], some [1/4, -1/2], true, false, none, none, [], [], false⟩) [400, 500] [0, 1] [1] [[1]] 1 :=
+  generated_calculate_matrix_eq_model _ _ _ _ _ _ _
+
+/-- **`util.retrieve_irf` as written** — `dataset["irf"] = irf.calculate(index=0, …)`, `irf_center` / `irf_width` (the declared
+    lists; `x[0]` of an empty list is an IndexError), `irf_shift = [center[0] - p.value for p in irf.shift]` on the global
+    dimension (xarray's conflicting-sizes error), and for a spectral IRF with a dispersion centre `irf_center_location =
+    irf.calculate_dispersion(spectral axis)` with `center_dispersion_1` its first row — **is the model's `retrieveIrf`**. -/
+theorem generated_retrieve_irf_eq_model (irf : Irf) (axis times : List Rat) :
+    Gen.retrieve_irf (α := ℝ) irf axis times = retrieveIrf irf axis times := by
+  unfold Gen.retrieve_irf retrieveIrf
+  rw [generated_irf_calculate_eq_model, generated_calculate_dispersion_eq_model]
+  cases irfCalculate (α := ℝ) irf 0 axis times with
+  | error e => rfl
+  | ok v =>
+    simp only [bindR, liftIrf, scalarOrList]
+    rcases hc : irf.center with _ | ⟨c0, cs⟩
+    · simp
+    rcases hw : irf.width with _ | ⟨w0, ws⟩
+    · simp
+    simp only [List.isEmpty_cons, Bool.false_eq_true, if_false, Bool.or_self, listGet, bindE, onGlobalDim]
+    have hrows : ∀ loc, calculateDispersion irf axis = .ok loc → onGlobalDimRows axis loc = .ok loc := by
+      intro loc hcd
+      simp [onGlobalDimRows, calculateDispersion_rows irf axis loc hcd]
+    cases hsp : (irf.spectral && irf.dispersionCenter.isSome) <;>
+      cases hcd : calculateDispersion irf axis <;>
+      cases hsh : irf.shift <;>
+      (first | simp [hrows _ hcd] | simp) <;>
+      (rename_i sh; cases sh <;> simp <;> split_ifs <;> simp_all)
+
+example : (Gen.retrieve_irf (α := ℝ) ⟨false, [1, 2], [1/2], some [1, 3], some [1/4, -1/2], true, false, none, none, [], [], false⟩ [400, 500] [0, 1]).toOption.isSome = true := by
+  rw [generated_retrieve_irf_eq_model]
+  unfold retrieveIrf irfCalculate
+  simp only [show parameter ⟨false, [1, 2], [1/2], some [1, 3], some [1/4, -1/2], true, false, none, none, [], [], false⟩ (some 0) [400, 500] = .ok ⟨[1, 2], [1/2, 1/2], [1, 3], 1/4, false, 0⟩ by decide +kernel]
+  simp [Except.toOption]
+
+/-! ### the cases the compiled code refuses: zero width, zero sum of scales, empty global axis -/
+
+/-- **A matrix that comes back from the checked `calculate_matrix` is the matrix of `calculateMatrix`** (so every
+    convolution theorem above applies to it), no kernel raised (`kernelGuard`: no zero width met by a loop iteration, no
+    empty global axis under an index-dependent IRF) and every entry of the decay matrix passed `np.isfinite`. -/
+theorem checked_ok_refines {α : Type} [Num α] (fin : α → Bool) (irf : Option Irf) (axis times rates : List Rat)
+    (a : List (List Rat)) (n : Nat) (M : Matrix α)
+    (h : calculateMatrixChecked fin irf axis times rates a n = .ok M) :
+    calculateMatrix irf axis times rates a n = .ok M ∧
+      (∀ i, irf = some i → kernelGuard i axis times rates = none) ∧
+      ∃ M0, decayMatrix irf axis times rates = .ok M0 ∧ M0.all fin = true := by
+  unfold calculateMatrixChecked at h
+  cases hd : decayMatrix (α := α) irf axis times rates with
+  | error e => simp [hd] at h
+  | ok M0 =>
+    simp only [hd] at h
+    cases hg : irf.bind (fun i => kernelGuard i axis times rates) with
+    | some e => simp [hg] at h
+    | none =>
+      simp only [hg, calculateMatrixFin, hd] at h
+      by_cases hf : M0.all fin = true
+      · simp only [hf, Bool.not_true, Bool.false_eq_true, if_false, Except.ok.injEq] at h
+        refine ⟨?_, ?_, M0, rfl, hf⟩
+        · unfold calculateMatrix
+          rw [hd, ← h]
+          cases M0 <;> rfl
+        · intro i hi
+          subst hi
+          simpa using hg
+      · simp [hf] at h
+
+example : (calculateMatrixChecked Term.finite (some ⟨false, [1, 2], [1/2], some [1, 3], some [1/4, -1/2], true, false, none, none, [], [], false⟩) [400, 500] [0, 1] [1] [[1]] 1).toOption.isSome = true := by
+  decide +kernel
+
+/-- **`normalize` with scales that sum to zero never yields a matrix** (non-empty time axis and rates): every entry is a
+    quotient by the exact number 0 (`inf` / `nan` in numpy), so `calculate_matrix` raises its "Non-finite concentrations"
+    ValueError — unless `parameter` or a kernel raised before. -/
+theorem zero_scale_sum_never_a_matrix (irf : Irf) (axis times rates : List Rat) (a : List (List Rat)) (n : Nat)
+    (p : Params) (hn : irf.normalize = true)
+    (hp : parameter irf (if isIndexDependent irf then some 0 else none) axis = .ok p) (h0 : p.scales.sum = 0)
+    (hax : isIndexDependent irf = true → axis ≠ []) (ht : times ≠ []) (hr : rates ≠ []) (M : Matrix Term) :
+    calculateMatrixChecked Term.finite (some irf) axis times rates a n ≠ .ok M := by
+  intro h
+  obtain ⟨_, _, M0, hd, hf⟩ := checked_ok_refines _ _ _ _ _ _ _ _ h
+  unfold decayMatrix at hd
+  cases hdep : isIndexDependent irf with
+  | false =>
+    simp only [hdep, Bool.false_eq_true, if_false] at hd hp
+    cases hm : matrixIndep (α := Term) irf axis times rates with
+    | error e => simp [hm] at hd
+    | ok m =>
+      simp only [hm, Except.ok.injEq] at hd
+      obtain ⟨q, hq, hmq⟩ := indep_matrix_uses_parameters irf axis times rates m hm
+      rw [hp] at hq
+      simp only [Except.ok.injEq] at hq
+      subst hq; subst hd
+      rw [hn] at hmq
+      have := normalised_zero_sum_not_finite p times rates h0 ht hr
+      rw [← hmq] at this
+      simp only [Matrix.all] at hf
+      rw [this] at hf
+      exact Bool.false_ne_true hf
+  | true =>
+    simp only [hdep, if_true] at hd hp
+    cases hm : matrixDep (α := Term) irf axis times rates with
+    | error e => simp [hm] at hd
+    | ok ms =>
+      simp only [hm, Except.ok.injEq] at hd
+      have hpos : 0 < axis.length := List.length_pos_iff.mpr (hax hdep)
+      obtain ⟨q, hq, hmq⟩ := index_i_uses_parameters_i irf axis times rates ms hm 0 hpos
+      rw [hp] at hq
+      simp only [Except.ok.injEq] at hq
+      subst hq; subst hd
+      rw [hn] at hmq
+      have hnf := normalised_zero_sum_not_finite p times rates h0 ht hr
+      simp only [Matrix.all] at hf
+      have hmem : matrixOfParams (α := Term) true p times rates ∈ ms := List.mem_of_getElem? hmq
+      have := List.all_eq_true.mp hf _ hmem
+      rw [hnf] at this
+      exact Bool.false_ne_true this
+
+example : errOf (calculateMatrixChecked Term.finite (some ⟨false, [1, 2], [1/2], some [1, -1], none, true, false, none, none, [], [], false⟩)
+      [400] [0, 1] [1] [[1]] 1) = some .nonFiniteMatrix ∧
+    errOf (calculateMatrixChecked Term.finite (some ⟨false, [1, 2], [1/2], some [1, -1], some [0, 1], true, false, none, none, [], [], false⟩)
+      [400, 500] [0, 1] [1] [[1]] 1) = some .nonFiniteMatrix ∧
+    -- an empty time axis: nothing to divide, the (empty) matrix comes back
+    errOf (calculateMatrixChecked Term.finite (some ⟨false, [1, 2], [1/2], some [1, -1], none, true, false, none, none, [], [], false⟩)
+      [400] [] [1] [[1]] 1) = none := by decide +kernel
+
+/-- **A zero width under an index-independent IRF raises** (ZeroDivisionError of the compiled kernel) as soon as a loop
+    iteration divides by it (non-empty time axis and rates); never a matrix.
+    The full statement — *a zero width never yields a matrix* — is FALSE for the code when the IRF is index dependent: the
+    division then raises inside numba's `prange` loop, where the exception is lost or becomes a SystemError depending on the
+    thread (`zero_width_raises_counterexample`; the harness replays that witness on the real code: the slice of the index with
+    the zero width comes back as zeros).  Recorded: KNOWN_FINDINGS `silent-matrix:zero-width`. -/
+theorem zero_width_raises_partial {α : Type} [Num α] (fin : α → Bool) (irf : Irf) (axis times rates : List Rat)
+    (a : List (List Rat)) (n : Nat) (M0 : Matrix α)
+    (hd : decayMatrix (α := α) (some irf) axis times rates = .ok M0)
+    (hdep : isIndexDependent irf = false)
+    (hw : (kernelWidths irf axis).any (· == 0) = true) (ht : times ≠ []) (hr : rates ≠ []) :
+    calculateMatrixChecked fin (some irf) axis times rates a n = .error .zeroDivision := by
+  unfold calculateMatrixChecked
+  simp only [hd, Option.bind_some, kernelGuard, hw, Bool.true_and, hdep]
+  have h1 : times.isEmpty = false := by cases times <;> simp_all
+  have h2 : rates.isEmpty = false := by cases rates <;> simp_all
+  simp [h1, h2]
+
+example : errOf (calculateMatrixChecked Term.finite (some ⟨false, [1], [0], none, none, true, false, none, none, [], [], false⟩)
+      [400] [0, 1] [1] [[1]] 1) = some .zeroDivision ∧
+    errOf (calculateMatrixChecked Term.finite (some ⟨false, [1], [1/2], none, some [], true, false, none, none, [], [], false⟩)
+      [] [0, 1] [1] [[1]] 1) = some .emptyList := by decide +kernel
+
+/-- the witness of the failing full statement: a width dispersion that makes the width of the second global index exactly
+    zero (`1/2 - 1/2·(600 - 500)/100`); the parameters are accepted, the model declines to say what the parallel kernel does -/
+theorem zero_width_raises_counterexample :
+    (parameter ⟨true, [0], [1/2], none, none, true, false, none, some 500, [], [-1/2], false⟩ (some 1) [500, 600]).toOption.map (·.widths)
+      = some [0] ∧
+    errOf (calculateMatrixChecked Term.finite (some ⟨true, [0], [1/2], none, none, true, false, none, some 500, [], [-1/2], false⟩)
+      [500, 600] [0, 1] [1/2, 1/20] [[1, 0], [0, 1]] 2) = some .zeroWidthParallel := by decide +kernel
+
+/-! ### the reported IRF trace is the IRF the matrix used -/
+
+/-- the Gaussians of one parameter tuple (`centre - shift`, width, scale: what the kernel receives), each in
+    peak-normalised form `s · (w√(2π)) · N(c, w)` -/
+noncomputable def usedMixturePeak (p : Params) (t : ℝ) : ℝ :=
+  ((gaussians p.centers p.widths p.scales p.shift).map
+    (fun g => (g.2.2 : ℝ) * (((g.2.1 : Rat) : ℝ) * √(2 * π)) * gaussPdf g.1 g.2.1 t)).sum
+
+theorem reported_irf_is_used_irf (irf : Irf) (axis times : List Rat) (r : IrfResult ℝ)
+    (h : retrieveIrf irf axis times = .ok r) :
+    ∃ p, parameter irf (some 0) axis = .ok p ∧
+      ((∀ g ∈ gaussians p.centers p.widths p.scales p.shift, g.2.1 ≠ 0) →
+        r.irf = times.map (fun (t : Rat) => usedMixturePeak p t)) ∧
+      ∀ (times' rates : List Rat) (ms : List (List (List ℝ))),
+        matrixDep irf axis times' rates = .ok ms → axis ≠ [] →
+          ms[0]? = some (matrixOfParams irf.normalize p times' rates) := by
+  obtain ⟨p, hp, hv⟩ := irfCalculate_spec irf 0 axis times r.irf (retrieveIrf_irf irf axis times r h)
+  refine ⟨p, hp, ?_, ?_⟩
+  · intro hw
+    rw [hv]
+    apply List.map_congr_left
+    intro t _
+    unfold usedMixturePeak
+    congr 1
+    apply List.map_congr_left
+    intro g hg
+    have hw' : ((g.2.1 : Rat) : ℝ) ≠ 0 := by exact_mod_cast hw g hg
+    have hpi : √(2 * π) ≠ 0 := by positivity
+    unfold gaussPdf
+    field_simp
+  · intro times' rates ms hm hax
+    obtain ⟨q, hq, hmq⟩ := index_i_uses_parameters_i irf axis times' rates ms hm 0 (List.length_pos_iff.mpr hax)
+    rw [hp] at hq
+    simp only [Except.ok.injEq] at hq
+    subst hq
+    exact hmq
+
+/-- non-vacuity, and the regression witness of the defect `irf-trace-ignores-shift` (before the fix `Irf.calculate` dropped the
+    shift: centre 2 with shift 1 at index 0 was reported at 2, the matrix of index 0 used 1) -/
+example : (retrieveIrf (α := Term) ⟨false, [2], [1/2], none, some [1, 0], true, false, none, none, [], [], false⟩ [400, 500] [1]).toOption.isSome = true ∧
+    (parameter ⟨false, [2], [1/2], none, some [1, 0], true, false, none, none, [], [], false⟩ (some 0) [400, 500]).toOption.map
+      (fun p => gaussians p.centers p.widths p.scales p.shift) = some [(1, 1/2, 1)] := by decide +kernel
 
 end Glotaran.C05
